@@ -4,6 +4,7 @@ import CbiVerif.Drv.Metrics
 import CbiVerif.Drv.C06
 import CbiVerif.Drv.Dups
 import CbiVerif.Drv.DbPath
+import CbiVerif.Drv.Exclude
 /-! Native JSON-lines driver: one request object per line, one reply per line.
 Each area registers its ops in `CbiVerif/Drv/<Area>.lean`. -/
 open Lean
@@ -13,7 +14,8 @@ def handlerTable : List (String × (Json → Json)) :=
   CbiVerif.Drv.Metrics.handlers ++
   CbiVerif.Drv.C06.handlers ++
   CbiVerif.Drv.Dups.handlers ++
-  CbiVerif.Drv.DbPath.handlers
+  CbiVerif.Drv.DbPath.handlers ++
+  CbiVerif.Drv.Exclude.handlers
 
 def handle (j : Json) : Json :=
   match j.getObjValAs? String "op" with
